@@ -264,6 +264,11 @@ class AdaptiveEigenvectorSupport(BaseAdaptiveSupport):
             '_mu': self._mu,
             '_log_lambda': 0.0}
 
+    def _reset_adaptation(self):
+        super()._reset_adaptation()
+        # the jumps use the eigen-decomposition, not the covariance itself
+        self.eigvals, self.eigvects = numpy.linalg.eigh(self._cov)
+
     def recursive_covariance(self, chain):
         """Recursively updates the covariance given the latest observation.
         Weights all sampled points uniformly.
